@@ -10,6 +10,13 @@
     * direct writer   : the one-slot semaphore — `enter w` needs `owner = none`, `endWrite` releases it;
     * coalescing writer: the single flusher goroutine — only it enters the socket, one buffer of the
                           flush at a time (`owner` = the buffer it is writing, `todo` = the buffers left).
+  SHUTDOWN: `closeWithError` calls `c.cancel()` (closing the writers' `quit` channel: `St.quit`) BEFORE `c.close()` (`St.closed`);
+  in between the socket still accepts bytes. `cancelCtx w` / `shutQuit` close quit, `closeFinish w` / `shutdown` close the
+  socket. A writer parked in writeContext's first select leaves with `(0, closed)` (`quit w`); the flusher, at its select,
+  takes the quit branch (`flusherQuit`, then `St.gone`): it tells every queued writer `(0, io.EOF)` (`quit w` of a queued
+  writer) and returns — nothing is written. Go's select is free to prefer a timer tick / a hand-over / the semaphore even
+  when quit is closed, so `tick`, `enqueue`, `enter` stay enabled until `flusherQuit` (the model has those behaviours).
+  `Cfg.flushOnQuit = true` is the variant "one last flush on quit" (counterexample `C07_cex_last_flush_on_quit` only).
   `Cfg.serialised = false` switches the semaphore off; it exists only for the necessity counterexample
   (`C07_cex_without_semaphore`): every theorem requires `serialised = true`.
 -/
@@ -121,7 +128,7 @@ inductive Act where
   | enter (w : Nat)              -- socket Write of the frame of `w` begins
   | piece (w : Nat) (k : Nat)    -- the transport takes the next `k` bytes of it
   | endWrite (w : Nat) (ok : Bool) -- the socket Write returns (bytes so far, nil / an error of any kind)
-  | quit (w : Nat)               -- connection closed: a waiting / enqueued writer gets (0, closed)
+  | quit (w : Nat)               -- quit is closed: a waiting writer / (flusher gone) an enqueued writer gets (0, closed)
   | ret (w : Nat)                -- writeContext returns to exec
   | close (w : Nat)              -- exec calls closeWithError: the first caller becomes the closer, later ones return
   | closeFinish (w : Nat)        -- the closer has told the outstanding calls and closes the socket
